@@ -258,6 +258,11 @@ func processPoints(points []Point, closed bool) (
 		} else if i == len(points)-2 {
 			b = points[i+1]
 			c = points[0]
+			if closed && b == c {
+				// the ring repeats its first point as closing point: the
+				// vertex after the first one is points[1]
+				c = points[1]
+			}
 		} else {
 			b = points[i+1]
 			c = points[i+2]
